@@ -11,6 +11,12 @@
 EXTENDS VekField, FiniteSets
 
 Dim(A) == Len(A)
+\* TLC evaluates function constructors lazily and re-evaluates them on every application; a product of
+\* products would be recomputed exponentially often.  Tup / ForceM turn a (<= 4)-vector / matrix into an
+\* explicit tuple, evaluated once.  They are identities on values.
+Tup(v) == CASE Len(v) = 1 -> <<v[1]>> [] Len(v) = 2 -> <<v[1], v[2]>> [] Len(v) = 3 -> <<v[1], v[2], v[3]>>
+            [] Len(v) = 4 -> <<v[1], v[2], v[3], v[4]>> [] OTHER -> v
+ForceM(A) == Tup([i \in 1 .. Len(A) |-> Tup(A[i])])
 Mat(n, Entry(_, _)) == [i \in 1 .. n |-> [j \in 1 .. n |-> Entry(i, j)]]
 Idn(n) == [i \in 1 .. n |-> [j \in 1 .. n |-> IF i = j THEN F1 ELSE F0]]
 ZeroM(n) == [i \in 1 .. n |-> [j \in 1 .. n |-> F0]]
@@ -21,7 +27,7 @@ AbsLay(lay, lines) == IF lay = "r" THEN lines ELSE Transp(lines)
 Row(A, i) == A[i]
 Col(A, j) == [i \in 1 .. Len(A) |-> A[i][j]]
 Dot(u, v) == FSum([k \in 1 .. Len(u) |-> FMul(u[k], v[k])])
-MatMul(A, B) == [i \in 1 .. Len(A) |-> [j \in 1 .. Len(A) |-> Dot(A[i], Col(B, j))]]
+MatMul(A, B) == ForceM([i \in 1 .. Len(A) |-> [j \in 1 .. Len(A) |-> Dot(A[i], Col(B, j))]])
 MatVec(A, v) == [i \in 1 .. Len(A) |-> Dot(A[i], v)]          \* M * column vector
 VecMat(v, A) == [j \in 1 .. Len(A) |-> Dot(v, Col(A, j))]     \* row vector * M
 MapM(A, Op(_)) == [i \in 1 .. Len(A) |-> [j \in 1 .. Len(A) |-> Op(A[i][j])]]
